@@ -68,7 +68,15 @@ def c_plain(m, fi, tr):
                     note='built-in %s on %s, %s without wrap' % (m['op'], L.name, Rh.name))
 
 
-def elastic_contract(op, Dl, LR, Dr, RR, tag, first):
+def c_plain_abs(m, fi, tr):
+    """built-in multiply on the result rep as the (abstracted) machine product; its no-overflow side is the interval fact"""
+    L, Rh = CT.ty(m['L']), CT.ty(m['Rh'])
+    s = builtin_sem(m['op'], L, Rh, '(*a1)', '(*a2)')
+    return Contract(requires=[], ensures=['(%s)$RET == %s' % (s['res'].ctype, s['value'])], assigns=[],
+                    note='machine %s on %s, %s (abstracted)' % (m['op'], L.name, Rh.name))
+
+
+def elastic_contract(op, Dl, LR, Dr, RR, tag, first, abstract=False):
     """LR/RR: IntT of the operand reps"""
     def gen(m, fi, tr):
         if fi['nparams'] != first + 2:
@@ -78,6 +86,19 @@ def elastic_contract(op, Dl, LR, Dr, RR, tag, first):
         bres = fact_value(tr, 'bits_' + tag)
         Res = CT.ty(('i' if sres else 'u') + str(bres))
         le, re_ = arg_rep(tr, fi, first), arg_rep(tr, fi, first + 1)
+        if abstract:
+            # wide multiplication: the result is the machine product, at the result rep's width, of the operands converted
+            # value-preservingly to the result rep (multiplication abstracted: congruence).  That this product is the exact
+            # one and lies within the declared digits is the interval lemma |l*r| <= max|l|*max|r| evaluated on the digits
+            # (compile-time fact rng_<tag>), not a SAT question.
+            lc = '((%s)(%s)%s)' % (Res.ctype, LR.sctype, le)
+            rc = '((%s)(%s)%s)' % (Res.ctype, RR.sctype, re_)
+            w0 = max(LR.bits, RR.bits) + 4
+            lv0, rv0 = wval(le, LR, w0), wval(re_, RR, w0)
+            req0 = ['%s >= %s && %s <= %s' % (lv0, wconst(-(2 ** Dl - 1) if LR.signed else 0, w0), lv0, wconst(2 ** Dl - 1, w0)),
+                    '%s >= %s && %s <= %s' % (rv0, wconst(-(2 ** Dr - 1) if RR.signed else 0, w0), rv0, wconst(2 ** Dr - 1, w0))]
+            return Contract(requires=req0, ensures=['(%s)$RET == VP_MUL%d(%s, %s)' % (Res.ctype, Res.bits, lc, rc)], assigns=[],
+                            note='machine product at the result rep width of the value-preservingly converted operands (multiplication abstracted)')
         w = max(LR.bits + RR.bits, bres, Dres) + 4
         lv, rv = wval(le, LR, w), wval(re_, RR, w)
         req = ['%s >= %s && %s <= %s' % (lv, wconst(-(2 ** Dl - 1) if LR.signed else 0, w), lv, wconst(2 ** Dl - 1, w)),
@@ -87,7 +108,10 @@ def elastic_contract(op, Dl, LR, Dr, RR, tag, first):
         if op in ('divide', 'modulo'):
             # operands are within the result rep's range (type invariant), so the truncating quotient / remainder of the
             # mathematical values is the one computed at the result rep's own width (keeps a single divider in the proof)
-            ex = wval('((%s)((%s)%s %s (%s)%s))' % (Res.ctype, Res.sctype, lv, OPS[op], Res.sctype, rv), Res, w)
+            Wd = CT.ty(('i' if (LR.signed or RR.signed) else 'u') + str(max(LR.bits, RR.bits, Res.bits)))
+            if LR.signed != RR.signed:      # mixed signedness: one more bit so that both operand ranges fit
+                Wd = CT.ty('i' + str(min(128, 2 * max(LR.bits, RR.bits))))
+            ex = wval('((%s)((%s)%s %s (%s)%s))' % (Wd.ctype, Wd.sctype, lv, OPS[op], Wd.sctype, rv), Wd, w)
         else:
             ex = exact_expr(op, lv, rv)
         ret = wval('$RET', Res, w)
@@ -117,6 +141,7 @@ INST_T = INST_Q + [(63, 'i32', 63, 'i32'), (64, 'u32', 63, 'i32'), (2, 'i8', 7, 
 
 def plan(tier):
     thorough = tier == 'thorough'
+    TIER[0] = tier
     src = [KERNEL_HEAD]
     jobs = []
     kname = 'C05'
@@ -131,8 +156,9 @@ def plan(tier):
         for op, sym in OPS.items():
             tag = '%s_%d%s_%d%s' % (op, Dl, nl, Dr, nr)
             prod_bits = (Dl + Dr) if op == 'multiply' else 0
-            heavy = (op == 'multiply' and Dl + Dr > 16)
-            if heavy and (not thorough or Dl + Dr > 64):
+            wide_mul = op == 'multiply' and Dl + Dr > 16 and Dl + Dr <= 126 and max(Dl, Dr) <= 63
+            heavy = (op == 'multiply' and Dl + Dr > 16 and not wide_mul) or (op in ('divide', 'modulo') and max(Dl, Dr) > 8)
+            if heavy and (not thorough or Dl + Dr > 64 or (op != 'multiply' and max(Dl, Dr) > 33)):
                 skipped.append('%s %s %s: multiplier/divider equality beyond SAT budget in this tier' % (A, sym, B))
                 continue
             if prod_bits > 127 or (op in ('add', 'subtract') and max(Dl, Dr) + 1 > 127):
@@ -154,11 +180,18 @@ def plan(tier):
             solvers = ('cadical', 'kissat') if heavy else ('minisat',)
             common = dict(shim=sname, shim_types=[l, r], oracle=oracle(op, Dl, LR, Dr, RR), prop=PROP, via=sname,
                           solvers=solvers, timeout=900 if heavy else 120)
-            c0 = elastic_contract(op, Dl, LR, Dr, RR, tag, 0)
-            c1 = elastic_contract(op, Dl, LR, Dr, RR, tag, 1)
+            c0 = elastic_contract(op, Dl, LR, Dr, RR, tag, 0, abstract=wide_mul)
+            c1 = elastic_contract(op, Dl, LR, Dr, RR, tag, 1, abstract=wide_mul)
+            if wide_mul:
+                common.update(abstract_mul=True, solvers=('minisat',), timeout=120)
+                src.append(fact_shim('rng_' + tag,
+                                     '((((unsigned __int128)1 << %d) - 1) * (((unsigned __int128)1 << %d) - 1) <= (((unsigned __int128)1 << cnl::digits_v<%s>) - 1)) '
+                                     '&& (cnl::digits_v<%s> <= cnl::digits_v<cnl::_impl::rep_of_t<%s>>)' % (Dl, Dr, E, E, E)))
+                jobs.append(fact_job(PROP, kname, 'rng_' + tag, 1,
+                                     'interval lemma on the digits: (2^%d-1)*(2^%d-1) <= 2^D-1 and D fits the result rep, so the machine product is exact and within the declared range' % (Dl, Dr)))
             jobs.append(Job('%s.L3.%s' % (PROP, tag), kname, P_PUBLIC, c0, replace=[(P_WRAPOP, c1)], layer=3, **common))
             jobs.append(Job('%s.L2.%s' % (PROP, tag), kname, P_WRAPOP, c1, replace=[(P_TAGOP, c1)], layer=2, **common))
-            jobs.append(Job('%s.L1.%s' % (PROP, tag), kname, P_TAGOP, c1, replace=[(P_PLAIN, c_plain)], layer=1, **common))
+            jobs.append(Job('%s.L1.%s' % (PROP, tag), kname, P_TAGOP, c1, replace=[(P_PLAIN, c_plain_abs if wide_mul else c_plain)], layer=1, **common))
             n += 1
     jobs.append(('LEAVES', kname, P_PLAIN, c_plain_leaf, 'L0.plain_op', dict(solvers=('cadical', 'kissat'), timeout=900)))
     k = Kernel(kname, ''.join(src), [], 'elastic_integer operators')
@@ -175,6 +208,6 @@ TIER = ['quick']
 
 def c_plain_leaf(m, fi, tr):
     L, Rh = CT.ty(m['L']), CT.ty(m['Rh'])
-    if m['op'] in ('multiply', 'divide', 'modulo') and L.bits + Rh.bits > 64:
+    if m['op'] in ('multiply', 'divide', 'modulo') and L.bits + Rh.bits > (64 if TIER[0] == 'thorough' else 32):
         return None
     return c_plain(m, fi, tr)
